@@ -340,6 +340,9 @@ func init() {
 			c.set(e.goInt(int64(c.st.locks[id])))
 			return true
 		},
+		// vGuard(map, &mutex, label) / vGuardDeletes: from now on library code may touch the map only with the lock held
+		"vGuard":        guardIntrinsic(false),
+		"vGuardDeletes": guardIntrinsic(true),
 		"vLocksHeld": func(e *Engine, c *callCtx) bool {
 			n := 0
 			for _, v := range c.st.locks {
@@ -470,6 +473,25 @@ func init() {
 		"vNote": func(e *Engine, c *callCtx) bool {
 			return true
 		},
+	}
+}
+
+func guardIntrinsic(deletesOnly bool) stubFn {
+	return func(e *Engine, c *callCtx) bool {
+		m, ok := c.args[0].(IfaceV).val.(MapV)
+		if !ok || m.obj == 0 {
+			panic(hardErr("vGuard: first argument must be a non-nil map"))
+		}
+		p := c.args[1].(IfaceV).val.(PtrV)
+		id := p.obj
+		if p.fld >= 0 {
+			id = c.st.obj(p.obj).fields[p.fld].(RefV).obj
+		}
+		if c.st.guards == nil {
+			c.st.guards = map[int]guard{}
+		}
+		c.st.guards[m.obj] = guard{lock: id, label: c.args[2].(StrV).lit, deletesOnly: deletesOnly}
+		return true
 	}
 }
 
